@@ -88,6 +88,15 @@ class Engine(Executor, Calls):
                             cl.extra["trace"] = uses_trace(cl.ast)
                         elif cl.kind == "modifies":
                             cl.extra["targets"] = [parse_expr(x.strip()) for x in split_top(cl.text)]
+                        elif cl.kind == "after":
+                            # after <callee pattern> [label] <assumed fact about that call ($i args, $ri results)>
+                            pat, rest = cl.text.split(None, 1)
+                            import re
+                            m2 = re.match(r"^\[([^\]]+)\]\s*(.*)$", rest.strip(), re.S)
+                            if m2:
+                                cl.label, rest = m2.group(1), m2.group(2)
+                            cl.extra["pattern"] = pat
+                            cl.ast = parse_expr(rest)
                         elif cl.kind == "loop":
                             import re
                             m = re.match(r"^(\d+)\s+(invariant|decreases|modifies)\s*(\[[^\]]*\])?\s*(.*)$", cl.text)
@@ -440,6 +449,20 @@ class Engine(Executor, Calls):
                     return j["op"]
         return target or "?"
 
+    def after_call(self, st, ev):
+        """assumed facts attached to calls by `after` clauses of the function under verification"""
+        c = self.cur
+        if c is None or not c.get("after") or self.quiet:
+            return
+        for cl in c["after"]:
+            if match_name(cl.extra["pattern"], ev.name):
+                ctx = SpecCtx(self, st, st, c["names"], fr_pkg=c["fn"]["pkg"])
+                ctx.name_types = c["name_types"]
+                ctx.cur_ev = ev
+                ctx.pol = -1
+                st.assume(to_bool(ctx.eval(cl.ast)))
+                self.used_contracts.add("assumed after-call fact [%s] in %s" % (cl.label, c["short"]))
+
     # concurrency hooks: overridden in conc.py -------------------------
     def on_lock(self, fr, st, p, ins, mode):
         pass
@@ -487,6 +510,7 @@ class Engine(Executor, Calls):
         if fn.get("recv") and isinstance(args[0], PtrV):
             st.assume(z3.Not(to_bool(args[0].nil)))
         name_types = {p["name"]: p["type"] for p in fn["params"] + (fn.get("freevars") or [])}
+        self.cur["names"], self.cur["name_types"], self.cur["after"] = names, name_types, decl.get("after")
         ctx = SpecCtx(self, st, st, names, fr_pkg=fn["pkg"])
         ctx.name_types = name_types
         for cl in decl.get("requires") + decl.get("assume"):
